@@ -15,6 +15,7 @@
 package internal
 
 import (
+	"net/http"
 	"net/url"
 	"strings"
 )
@@ -192,4 +193,18 @@ const hex = "0123456789ABCDEF"
 // hex digits as specified in RFC 3986 §2.1.
 func percentEncodeUpper(b byte) string {
 	return "%" + string(hex[b>>4]) + string(hex[b&0x0F])
+}
+
+// TargetURL returns the target URI of a client request (RFC 9110 §7.1): its
+// URL, with the authority of [http.Request.Host] when that is set. "For client
+// requests, Host optionally overrides the Host header to send": URL.Host then
+// only says where the connection goes, and requests for one URL value with
+// different Host values are requests for different resources.
+func TargetURL(req *http.Request) *url.URL {
+	if req.Host == "" || req.Host == req.URL.Host {
+		return req.URL
+	}
+	u := *req.URL
+	u.Host = req.Host
+	return &u
 }
